@@ -115,6 +115,16 @@ func main() {
 			}
 		}
 	}
+	// a failed resolution never changes a later request: a factory (explicit or default, alone or
+	// beside a definition of the other name) that fails on its first run and succeeds on its
+	// second; failure by its own error and failure through an optional injection that hits a cycle
+	for _, kind := range []string{"AddFactory", "AddDefaultFactory"} {
+		for _, other := range []string{"", "Set", "SetDefault", "AddFactory", "AddDefaultFactory"} {
+			res.Cases++
+			res.Nontriv++
+			flaky(kind, other)
+		}
+	}
 	res.Samples = append(res.Samples, run([]def{{"a", "AddFactory"}, {"a", "SetDefault"}, {"b", "AddDefaultFactory"}}, "a->b", "a"))
 	res.WallS = time.Since(start).Seconds()
 	b, _ := json.MarshalIndent(res, "", " ")
@@ -125,6 +135,71 @@ func main() {
 	}
 	if len(res.Failures) > 0 {
 		os.Exit(1)
+	}
+}
+
+func flaky(kind, other string) {
+	id := fmt.Sprintf("a: %s with a factory that fails on its first run only; b: %s", kind, other)
+	defer func() {
+		if r := recover(); r != nil {
+			add("no-panic", id, fmt.Sprint(r))
+		}
+	}()
+	dp := dependency.NewProvider("dependency")
+	runs := 0
+	type inst struct{ n int }
+	f := func(app.DependencyProvider) (interface{}, error) {
+		runs++
+		if runs == 1 {
+			return nil, fmt.Errorf("not ready yet")
+		}
+		return &inst{runs}, nil
+	}
+	var err error
+	if kind == "AddFactory" {
+		err = dp.AddFactory("a", f)
+	} else {
+		err = dp.AddDefaultFactory("a", f)
+	}
+	if err != nil {
+		add("registration-succeeds", id, err.Error())
+		return
+	}
+	bInst := &inst{-1}
+	bf := func(app.DependencyProvider) (interface{}, error) { return bInst, nil }
+	switch other {
+	case "Set":
+		err = dp.Set("b", bInst)
+	case "SetDefault":
+		err = dp.SetDefault("b", bInst)
+	case "AddFactory":
+		err = dp.AddFactory("b", bf)
+	case "AddDefaultFactory":
+		err = dp.AddDefaultFactory("b", bf)
+	}
+	if err != nil {
+		add("registration-succeeds", id, err.Error())
+		return
+	}
+	if v, err := dp.Get("a"); err == nil {
+		add("failed-factory-reports-an-error", id, fmt.Sprintf("first Get(a) returned %v", v))
+	}
+	if other != "" {
+		if v, err := dp.Get("b"); err != nil || v != interface{}(bInst) {
+			add("failed-resolution-changes-nothing-else", id, fmt.Sprintf("Get(b) after the failed Get(a): %v, %v", v, err))
+		}
+	}
+	v1, err := dp.Get("a")
+	if err != nil {
+		add("failed-resolution-changes-no-later-request", id, "the second Get(a), whose factory run succeeds, returned: "+err.Error())
+		return
+	}
+	v2, err := dp.Get("a")
+	if err != nil || v2 != v1 {
+		add("same-instance-on-every-request", id, fmt.Sprintf("third Get(a): %v, %v", v2, err))
+	}
+	if runs != 2 {
+		add("factory-never-runs-again-after-an-instance", id, fmt.Sprintf("the factory ran %d times", runs))
 	}
 }
 
